@@ -295,6 +295,30 @@ def run(case, rec):
         est = factory()
         d = data[0] if len(data) == 1 else tuple(data)
         call(rec, est.fit, (e, n), d)
+        # easting and northing of DIFFERENT but broadcastable shapes: either refused with an error or the prediction on the broadcast
+        # arrays, never something else (seed C04-7: a square row x column query silently answered along its diagonal)
+        row_e, col_n = qe[:3].reshape(1, 3).copy(), qn[3:6].reshape(3, 1).copy()
+        for name, (a, b) in {"row x column": (row_e, col_n), "column x row": (qe[:3].reshape(3, 1).copy(), qn[3:6].reshape(1, 3).copy()),
+                             "row(1,2) x column(3,1)": (row_e[:, :2].copy(), col_n), "scalar x column": (np.array(float(qe[0])), col_n),
+                             "row x scalar": (row_e, np.array(float(qn[4]))), "1-D x column": (qe[:3].copy(), col_n)}.items():
+            p = call(rec, est.predict, (a, b))
+            if raised(p):
+                rec.count("broadcast_queries_refused", 1)
+                rec.check(isinstance(p.exc, (ValueError, TypeError, IndexError)), "predict with a %s query raised %r" % (name, p))
+                continue
+            ba, bb = [np.array(x) for x in np.broadcast_arrays(a, b)]
+            ref_ = call(rec, est.predict, (ba, bb))
+            if raised(ref_):
+                rec.check(False, "predict on the broadcast arrays raised %r" % (ref_,))
+                continue
+            rec.count("broadcast_queries_answered", 1)
+            got_c = [np.asarray(c) for c in p] if isinstance(p, tuple) else [np.asarray(p)]
+            ref_c = [np.asarray(c) for c in ref_] if isinstance(ref_, tuple) else [np.asarray(ref_)]
+            t_ = float(np.max(tight))
+            for g_, r_ in zip(got_c, ref_c):
+                ok_ = g_.shape == ba.shape and bool(np.all((np.abs(g_ - r_) <= t_) | (np.isnan(g_) & np.isnan(r_))))
+                rec.check(ok_, "%s query: prediction of shape %s %s is not the prediction on the broadcast arrays (shape %s) %s"
+                          % (name, g_.shape, g_.ravel()[:4].tolist(), ba.shape, r_.ravel()[:4].tolist()))
         for i in (0, 4, 6):
             p = call(rec, est.predict, (np.array(qe[i]), np.array(qn[i])))
             if raised(p):
